@@ -118,7 +118,9 @@ def check(run):
     one(rep, 4, "csv")
     one([VALID[3], VALID[3], VALID[3]], None)
     # 2. mixtures with malformed rows at every position (quick: one malformed row; thorough: two)
-    bad = UNPARSABLE[:2] + NO_SEPARATOR[:3] + ([None] if run.tier != "quick" else [])
+    # (a list entry that is neither a string nor a dictionary is rejected up front by __convert_to_dataset with a ValueError
+    # naming the type: an input error, not a row; it is not part of the input forms C05 quantifies over)
+    bad = UNPARSABLE[:2] + NO_SEPARATOR[:3] + (UNPARSABLE[2:3] if run.tier != "quick" else [])
     for b in bad:
         for pos in range(0, 4):
             xs = VALID[:3]
